@@ -81,6 +81,24 @@ func (w Wrap) String() string {
 	return fmt.Sprintf("buffered(r=%d,w=%d)", w.R, w.W)
 }
 
+// Consumer is an application exception handler with a log-and-continue policy: it consumes every
+// exception (the tail handler, which would close the channel, never sees it).
+type Consumer struct {
+	Reader
+	Seen []error
+}
+
+func (c *Consumer) HandleException(ctx netty.ExceptionContext, ex netty.Exception) {
+	c.Seen = append(c.Seen, ex)
+}
+
+// TimeoutErr is a net.Error whose Timeout() is true (an expired write deadline).
+type TimeoutErr struct{}
+
+func (TimeoutErr) Error() string   { return "mock: i/o timeout" }
+func (TimeoutErr) Timeout() bool   { return true }
+func (TimeoutErr) Temporary() bool { return true }
+
 // NewEnv builds pipeline(handlers...) + channel and serves it (returns once the
 // active event has been delivered, as Connect/accept do).
 func NewEnv(cfg ChanCfg, parent context.Context, handlers ...netty.Handler) *Env {
